@@ -54,8 +54,8 @@ def run(pid, tier, seed, replay=None):
         if bad:
             s, l = bad[0]
             msg = 'lock-step: the rank machine and the implementation disagree on %d of %d runs; first: %s | %s' % (
-                len(bad), len(ls), '; '.join(l['mismatches'][:2]), s.text().split('\n')[0])
-            state['lockstep_bad'] = [{'scenario': s.text(), 'mismatches': l['mismatches'], 'cmd': l.get('cmd')} for s, l in bad[:5]]
+                len(bad), len(ls), '; '.join(l.get('mismatches', [str(l.get('detail', l.get('status')))])[:2]), s.text().split('\n')[0])
+            state['lockstep_bad'] = [{'scenario': s.text(), 'mismatches': l.get('mismatches', [str(l.get('detail', l.get('status')))]), 'cmd': l.get('cmd')} for s, l in bad[:5]]
         illegal = [(s, l) for s, l in ls if l['status'] == 'ok' and l.get('legal', 'ok') != 'ok']
         if pid in ('C08', 'C03', 'C02') and illegal and msg is None:
             # the main theorems (C08_handlers_never_nest_nor_run_masked, C03_no_assertion_fails, C02_barrier_returns_flushed) speak about
